@@ -109,6 +109,201 @@ def fault_history(pair, ops, res):
     return found
 
 
+def replica_fault_world(pair, r, res, tier):
+    """proof applications on a REPLICA (implementation only; the model side is FaultReplica.v): a writer with n blocks, a
+    sequence of honest proofs — block + upgrade, blocks in any order, a RE-DELIVERED block the replica already holds, an
+    upgrade-only proof after growth, a hash proof — and one I/O error at EVERY storage operation (reads included) of every
+    application. The call must answer an error; after dropping the instance and reopening the same storage the replica is in
+    the before-or-after state: its length is the one before or after the call, every block held before the call is still held and
+    reads back as the writer's block, nothing else is held except (possibly) the block of the failed call."""
+    import repl
+    im = pair.impl
+    found = []
+    n = r.choice([5, 8, 11])
+    blocks = [bytes([65 + i]) * r.choice([0, 1, 3, 24, 40]) for i in range(n)]
+    grow = [bytes([97 + i]) * r.choice([1, 5]) for i in range(r.choice([1, 2, 4]))]
+    im.cmd("reset")
+    for c in ["disk D", "new W D writer", "append W " + " ".join(hexb(b) for b in blocks), "disk E", "new R E replica"]:
+        im.cmd(c)
+    proofs = []
+    lens = []
+
+    def fetch(req):
+        pa = im.cmd("prove W " + req)
+        if pa.startswith("ok ") and pa != "ok none":
+            if im.cmd("apply R " + pa[3:]) == "ok 1":
+                proofs.append(pa[3:])
+                # (a partial upgrade carries additional nodes and brings the replica to the writer's full length)
+                lens.append(int(im.cmd("info R").split(" ")[1]))
+    first = r.randrange(n)
+    fetch("%d,0 - - 0,%d" % (first, n))
+    order = [i for i in range(n) if i != first]
+    r.shuffle(order)
+    for i in order[:3]:
+        fetch("%d,%s - - -" % (i, im.cmd("missing R %d" % i).split(" ")[1]))
+    # re-delivery of blocks the replica already holds (the same block from two peers)
+    fetch("%d,0 - - -" % first)
+    if len(order) > 0:
+        fetch("%d,0 - - -" % order[0])
+    # the writer grows: upgrade-only, then a block of the new part with the rest of the upgrade
+    im.cmd("append W " + " ".join(hexb(b) for b in grow))
+    blocks = blocks + grow
+    if len(grow) > 1:
+        fetch("- - - %d,%d" % (n, 1))
+    j = n + len(grow) - 1
+    fetch("%d,%s - - %d,%d" % (j, im.cmd("missing R %d" % j).split(" ")[1], int(im.cmd("info R").split(" ")[1]), n + len(grow) - int(im.cmd("info R").split(" ")[1])))
+    for i in order[3:5]:
+        fetch("%d,%s - - -" % (i, im.cmd("missing R %d" % i).split(" ")[1]))
+    total = len(blocks)
+
+    def state_after(k):
+        held = set()
+        for q in proofs[:k]:
+            pr = repl.parse_proof(q)
+            if pr["block"] is not None:
+                held.add(pr["block"]["index"])
+        return held, (lens[k - 1] if k else 0)
+    for k in range(len(proofs)):
+        setup = ["disk E", "new R E replica"] + ["apply R " + q for q in proofs[:k]]
+        # some of the applications run on a reopened (cold) instance
+        if k and r.random() < 0.4:
+            setup += ["drop R", "open R E"]
+        im.cmd("reset")
+        for c in setup:
+            im.cmd(c)
+        a = int(im.cmd("opcount E").split(" ")[1])
+        if im.cmd("apply R " + proofs[k]) != "ok 1":
+            continue
+        b = int(im.cmd("opcount E").split(" ")[1])
+        held0, len0 = state_after(k)
+        held1, len1 = state_after(k + 1)
+        for kf in range(a, b):
+            res.count("replica-faults-injected")
+            im.cmd("reset")
+            for c in setup:
+                im.cmd(c)
+            im.cmd("fail E %d" % kf)
+            ans = im.cmd("apply R " + proofs[k])
+            im.cmd("fail E off")
+            lab = "replica, application number %d (%s) of %d honest proofs, I/O error at its storage operation %d" % (
+                k, " ".join(x for x in ("block" if repl.parse_proof(proofs[k])["block"] else "", "upgrade" if repl.parse_proof(proofs[k])["upgrade"] else "",
+                                        "re-delivery" if held1 == held0 and repl.parse_proof(proofs[k])["block"] else "") if x), len(proofs), kf - a)
+            rep = dict(blocks=[hexb(x) for x in blocks], proofs=[q[:300] for q in proofs[:k + 1]], setup_tail=setup[-2:], fail_at=kf - a)
+            if klass(ans) == "crash":
+                found.append(dict(key="fault:crash", what="%s -> %s" % (lab, ans[:120]), replay=rep)); break
+            if not ans.startswith("err"):
+                found.append(dict(key="fault:success", what="%s: the call answered %s although a storage operation failed" % (lab, ans[:60]), replay=rep)); break
+            res.count("replica-fault-answer:" + ans)
+            im.cmd("drop R")
+            oa = im.cmd("open R E")
+            if oa != "ok":
+                found.append(dict(key="fault:reopen", what="%s: reopening the replica -> %s" % (lab, oa[:120]), replay=rep)); break
+            info = im.cmd("info R").split(" ")
+            if int(info[1]) not in (len0, len1):
+                found.append(dict(key="fault:length", what="%s: after reopening the length is %s (before the call %d, after it %d)" % (lab, info[1], len0, len1), replay=rep)); break
+            bad = None
+            for i in range(total + 1):
+                h = im.cmd("has R %d" % i)
+                g = im.cmd("get R %d" % i)
+                if i in held0:
+                    if h != "ok 1" or g != "ok some " + (hexb(blocks[i]) if blocks[i] else "_"):
+                        bad = "block %d was held before the failed call; after reopening has = %s, get = %s (the writer's block is %s)" % (i, h, g[:70], hexb(blocks[i])[:50])
+                elif i in held1:
+                    if h == "ok 1" and g != "ok some " + (hexb(blocks[i]) if blocks[i] else "_"):
+                        bad = "block %d (the block of the failed call) is held after reopening but get = %s" % (i, g[:70])
+                elif h != "ok 0":
+                    bad = "block %d was never delivered; after reopening has = %s" % (i, h)
+                if bad:
+                    break
+            if bad:
+                found.append(dict(key="fault:state", what="%s: %s" % (lab, bad), replay=rep)); break
+            res.count("replica-fault-recovered")
+        if found:
+            return found
+    return found
+
+
+def read_only_calls_fault(pair, r, res, tier):
+    """the calls that only READ storage — get of a held block, missing_nodes (by block and by tree index), create_proof for block /
+    hash / seek / upgrade requests — on a writer whose tree lives in the store only (flushed, reopened: nothing in memory) and on a
+    replica holding part of the log: one I/O error at EVERY storage operation of the call; the call must answer an error (an I/O
+    error read as 'node absent' would make missing_nodes / a seek proof answer a wrong value), and the same call afterwards, without
+    a fault, answers what it answered in the fault-free run (nothing was disturbed). Implementation only."""
+    im = pair.impl
+    found = []
+    n = r.choice([6, 9, 13])
+    wsetup = ["disk D", "new W D writer"] + ["append W %s" % hexb(bytes([65 + j]) * (j % 4 + 1)) for j in range(n)] + ["drop W", "open W D"]
+    total = sum(j % 4 + 1 for j in range(n))
+    targets = [("get W %d" % r.randrange(n), "get of a held block")]
+    targets += [("missing W %d" % i, "missing_nodes") for i in sorted(set([0, n // 2, n - 1]))]
+    targets += [("missingt W %d" % j, "missing_nodes_from_merkle_tree_index") for j in sorted(set([1, 3, 2 * (n // 2) + 1 if n > 2 else 1]))]
+    targets += [("prove W %d,0 - - -" % r.randrange(n), "create_proof block"),
+                ("prove W - - %d -" % r.randrange(total), "create_proof seek"),
+                ("prove W %d,1 - %d -" % (n // 2, r.randrange(total)), "create_proof block + seek"),
+                ("prove W - %d,0 %d -" % (2 * r.randrange(n), r.randrange(total)), "create_proof hash + seek"),
+                ("prove W %d,0 - - 0,%d" % (r.randrange(n), n), "create_proof block + upgrade"),
+                ("prove W - - %d 0,%d" % (r.randrange(total), n), "create_proof seek + upgrade")]
+
+    def opcount(d):
+        return int(im.cmd("opcount " + d).split(" ")[1])
+
+    def scenario(setup, target, disk, label):
+        im.cmd("reset")
+        for c in setup:
+            im.cmd(c)
+        a = opcount(disk)
+        ans0 = im.cmd(target)
+        b = opcount(disk)
+        if not ans0.startswith("ok"):
+            return
+        for kf in range(a, b):
+            res.count("read-only-call-faults")
+            im.cmd("reset")
+            for c in setup:
+                im.cmd(c)
+            im.cmd("fail %s %d" % (disk, kf))
+            ans = im.cmd(target)
+            im.cmd("fail %s off" % disk)
+            rep = dict(setup=[c[:120] for c in setup], target=target, fail_at=kf - a, fault_free_answer=ans0[:200])
+            if klass(ans) == "crash":
+                found.append(dict(key="fault:crash", what="%s (`%s`): I/O error at its storage operation %d of %d -> %s" % (label, target, kf - a, b - a, ans[:120]), replay=rep))
+                return
+            if not ans.startswith("err"):
+                found.append(dict(key="fault:success", what="%s (`%s`): I/O error at its storage operation %d of %d, the call answered %s "
+                                  "(without the fault: %s) although a storage operation failed" % (label, target, kf - a, b - a, ans[:80], ans0[:80]), replay=rep))
+                return
+            again = im.cmd(target)
+            if again != ans0:
+                found.append(dict(key="fault:disturbed", what="%s (`%s`): after an I/O error at its storage operation %d the same call answers %s, "
+                                  "fault-free it answers %s" % (label, target, kf - a, again[:80], ans0[:80]), replay=rep))
+                return
+    for target, label in targets:
+        scenario(wsetup, target, "D", label + " on a reopened writer")
+        if found:
+            return found
+    # a replica holding part of the log (blocks fetched out of order), reopened
+    im.cmd("reset")
+    for c in wsetup + ["disk E", "new R E replica"]:
+        im.cmd(c)
+    applied = []
+    pa = im.cmd("prove W %d,0 - - 0,%d" % (n // 2, n))
+    if pa.startswith("ok ") and pa != "ok none" and im.cmd("apply R " + pa[3:]) == "ok 1":
+        applied.append(pa[3:])
+    for i in r.sample(range(n), min(3, n)):
+        pa = im.cmd("prove W %d,%s - - -" % (i, im.cmd("missing R %d" % i).split(" ")[1]))
+        if pa.startswith("ok ") and pa != "ok none" and im.cmd("apply R " + pa[3:]) == "ok 1":
+            applied.append(pa[3:])
+    rsetup = ["disk E", "new R E replica"] + ["apply R " + q for q in applied] + ["drop R", "open R E"]
+    rt = [("missing R %d" % i, "missing_nodes") for i in range(0, n, max(1, n // 4))]
+    rt += [("missingt R %d" % j, "missing_nodes_from_merkle_tree_index") for j in (1, 3, 5)]
+    rt += [("get R %d" % (n // 2), "get of a held block"), ("prove R %d,0 - - -" % (n // 2), "create_proof block")]
+    for target, label in rt:
+        scenario(rsetup, target, "E", label + " on a reopened replica")
+        if found:
+            return found
+    return found
+
+
 def main(tier, seed):
     res = Result("C10", tier, seed)
     res.gate = coq_gate("C10.v", clean=(tier == "thorough"))
@@ -126,6 +321,18 @@ def main(tier, seed):
             res.violations.extend(vs)
             pair.disagreements = [d for d in pair.disagreements if d.get("level") != "journal"]
             res.disagreements.extend(pair.disagreements[:2]); pair.disagreements = []
+            if len(res.violations) >= 4:
+                break
+        for k in range(2 if tier == "quick" else 40):
+            vs = replica_fault_world(pair, r, res, tier)
+            res.add_case(("replica-fault-world", k), True, sample="writer + replica, honest proofs incl. re-delivered blocks and upgrade-only; fault at every storage operation of every application" if k == 0 else None)
+            res.violations.extend(vs)
+            if len(res.violations) >= 4:
+                break
+        for k in range(2 if tier == "quick" else 30):
+            vs = read_only_calls_fault(pair, r, res, tier)
+            res.add_case(("read-only-calls-fault", k), True, sample="get / missing_nodes / create_proof (block, hash, seek, upgrade) on a reopened writer and a reopened replica; fault at every storage operation of the call" if k == 0 else None)
+            res.violations.extend(vs)
             if len(res.violations) >= 4:
                 break
         res.extra["commands_compared"] = pair.ncmp
